@@ -4,4 +4,4 @@ From Coq Require Import ZArith NArith List.
 From SG Require Import Structure.Run.
 Require Extraction. Require Import ExtrOcamlBasic.
 Extraction Language OCaml.
-Extraction "../ocaml/gen/structure_ex.ml" run_sx checkmap_sx pathfns_sx warnpoint_sx basedepth_sx stemfns_sx.
+Extraction "../ocaml/gen/structure_ex.ml" run_sx checkmap_sx pathfns_sx warnpoint_sx basedepth_sx stemfns_sx roots_sx.
